@@ -37,6 +37,8 @@ func runC04(c *Ctx) {
 	ruleWhoCloses(c, p, "C04.who-closes")
 	ruleSendOnce(c, p, roles, "C04.send-once")
 	ruleWaiterWoken(c, p, roles, "C04.waiter-woken")
+	ruleDeadlineKind(c, p, roles, "C04.deadline-kind")
+	ruleFlushOwner(c, p, "C04.flush-owner")
 	_ = cfg
 	c.R.Assumptions = append(c.R.Assumptions,
 		"errgroup cancels the shared context when a goroutine returns a non-nil error (x/sync contract)",
@@ -1253,5 +1255,86 @@ func ruleWaiterWoken(c *Ctx, p *core.Program, r *doRoles, rule string) {
 		}
 	}
 	c.R.Count("channels the sender of Do waits on", n)
+	c.R.Floor(rule, cfg, n, 1)
+}
+
+// ruleDeadlineKind (C04 / C08): each side of a query arms and clears only its own direction of the connection.
+func ruleDeadlineKind(c *Ctx, p *core.Program, r *doRoles, rule string) {
+	c.R.Rule(rule, "package ch never calls net.Conn.SetDeadline (both directions at once); functions reachable from the sender goroutine of Do set only the write deadline, functions reachable from the receive goroutine only the read deadline: the sender's flush and the receiver's packet() run concurrently on one connection - a flush that clears the deadline with SetDeadline(time.Time{}) also disarms the read deadline the receiver has just armed, and with a silent server nothing ever wakes the receive loop again (Do does not return, read timeout or not)")
+	cfg := p.Cfg.Name
+	isConn := func(call ssa.CallInstruction, name string) bool {
+		cc := call.Common()
+		return cc.IsInvoke() && cc.Method.Name() == name && core.IsNamed(cc.Value.Type(), "net", "Conn")
+	}
+	n := 0
+	bad := false
+	side := func(root *ssa.Function) map[*ssa.Function]bool {
+		out := map[*ssa.Function]bool{}
+		for fn := range reachNoCallbacks(root) {
+			if pkgOf(fn) != nil && pkgOf(fn).Path() == core.PkgCh {
+				out[fn] = true
+			}
+		}
+		return out
+	}
+	sender, receiver := side(r.Sender), side(r.Receiver)
+	for _, fn := range p.Funcs() {
+		if pkgOf(fn) == nil || pkgOf(fn).Path() != core.PkgCh || fn.Blocks == nil || isServerSide(fn) {
+			continue
+		}
+		for _, call := range core.Calls(fn) {
+			switch {
+			case isConn(call, "SetDeadline"):
+				n++
+				bad = true
+				c.R.Bad(rule, core.CallKey(fn, call), cfg, p.Pos(call.Pos()), "SetDeadline sets (or clears) the read and the write deadline together: the other direction belongs to the other goroutine of the query")
+			case isConn(call, "SetReadDeadline"):
+				n++
+				if sender[fn] && !receiver[fn] {
+					bad = true
+					c.R.Bad(rule, core.CallKey(fn, call), cfg, p.Pos(call.Pos()), "a function of the sending side touches the read deadline")
+				}
+			case isConn(call, "SetWriteDeadline"):
+				n++
+				if receiver[fn] && !sender[fn] {
+					bad = true
+					c.R.Bad(rule, core.CallKey(fn, call), cfg, p.Pos(call.Pos()), "a function of the receiving side touches the write deadline")
+				}
+			}
+		}
+	}
+	if !bad {
+		c.R.Ok(rule, "package ch", cfg, "", sprintf("%d deadline calls, each on its own direction; no SetDeadline", n))
+	}
+	c.R.Count("deadline calls in package ch", n)
+	c.R.Floor(rule, cfg, n, 6)
+}
+
+// ruleFlushOwner (C04 / C14): only the client decides when staged output goes to the connection.
+func ruleFlushOwner(c *Ctx, p *core.Program, rule string) {
+	c.R.Rule(rule, "proto.Writer.Flush is called only from package ch (Client.flush, which tests the query context and arms the write deadline first), never from package proto itself: a block encoder that flushes part of a Data packet on its own writes it without that test and leaves the rest for the regular flush - when the query fails in between, the client stays open with half a packet on the wire and the next request is swallowed as column data")
+	cfg := p.Cfg.Name
+	n := 0
+	bad := false
+	for _, fn := range p.Funcs() {
+		if pkgOf(fn) == nil || fn.Blocks == nil {
+			continue
+		}
+		for _, call := range core.Calls(fn) {
+			f := core.CalleeFunc(call)
+			if f == nil || !core.IsMethod(f, core.PkgProto, "Writer", "Flush") {
+				continue
+			}
+			n++
+			if pkgOf(fn).Path() != core.PkgCh {
+				bad = true
+				c.R.Bad(rule, core.CallKey(fn, call), cfg, p.Pos(call.Pos()), "the staged output is flushed from inside package "+pkgOf(fn).Name()+": a packet can reach the wire in two instalments with the query's fate decided in between")
+			}
+		}
+	}
+	if !bad {
+		c.R.Ok(rule, "Writer.Flush", cfg, "", sprintf("%d call(s), all in package ch", n))
+	}
+	c.R.Count("calls of proto.Writer.Flush", n)
 	c.R.Floor(rule, cfg, n, 1)
 }
